@@ -11,8 +11,8 @@ Vocabulary (defined in `Lemmas/Deps.lean`, `Lemmas/DepsTopo.lean`):
   reached from `top` through lines without `-j`;
 * `Listed db [] top v` — some opened table has a line denoting `v`: "reachable through its table files (as resolved)";
 * `DepPath db top a b` — `b` is reachable from `a` along lines of opened tables;
-* `NoUnsetup db`     — no table has an `unsetupRequired` line (the property does not say what such a line means
-  for a listing; known finding D32 lives there);
+* `NoUnsetup db`     — no table has an `unsetupRequired` line and every declared table file exists (the property does
+  not say what an unsetup line or an unreadable table means for a listing; known finding D32 lives there);
 * `SingleVersion db top` — the closure of `top` holds no product in two versions. -/
 namespace EupsModel.C13
 open EupsModel EupsModel.Topo EupsModel.Deps
@@ -27,7 +27,7 @@ theorem C13_listing_is_reach (db : Db) (hns : NoUnsetup db) (top : Prod) :
       ∀ v, v ∈ out.map (·.prod) ↔ (Listed db [] top v ∧ v ≠ top) := by
   obtain ⟨o, st, h⟩ := depsOf_some db hns [] db.fuel top 1 St.empty (fuel_enough db)
   have hl : listing db db.fuel [] top = some (o.filter (fun e => e.prod != top), st) := by simp [listing, h]
-  refine ⟨o.filter (fun e => e.prod != top), by simp [getDependentProducts, hl], ?_⟩
+  refine ⟨o.filter (fun e => e.prod != top), by simp [getDependentProducts, hl, tableMissing_false hns top], ?_⟩
   intro v
   rw [← depsOf_listed hns h v]
   simp only [List.mem_map, List.mem_filter, bne_iff_ne, ne_eq]
@@ -145,7 +145,7 @@ theorem C13_cycle_reported_partial (db : Db) (hns : NoUnsetup db) (fuel : Nat) (
     (h : getDependentProducts db fuel top true true = .ok out)
     (a b : Prod) (ha : a = top ∨ Listed db [] top a) (hb : b = top ∨ Listed db [] top b)
     (hab : DepPath db top a b) (hba : DepPath db top b a) : a = b := by
-  obtain ⟨out1, st1, st2, ls, h1, h2, h3, _⟩ := getDependentProducts_topo_unfold h
+  obtain ⟨out1, st1, st2, ls, h1, h2, h3, _⟩ := getDependentProducts_topo_unfold (tableMissing_false hns top) h
   have h2' := second_pass_eq hns hsv h1
   rw [h2'] at h2
   have hst : st2.2 = st1 := ((_root_.Prod.mk.inj (Option.some.inj h2)).2).symm
@@ -249,8 +249,8 @@ private def req (n : String) (v : Option String := none) : Dep := ⟨false, fals
 
 /-- a diamond `r → {a, b} → c`, `c` needing the undeclared `zz` -/
 def diamond : Db :=
-  { decls := [⟨s "r", s "1", [req "a", req "b"]⟩, ⟨s "a", s "1", [req "c"]⟩, ⟨s "b", s "1", [req "c"]⟩,
-              ⟨s "c", s "1", [req "zz"]⟩]
+  { decls := [⟨s "r", s "1", [req "a", req "b"], false⟩, ⟨s "a", s "1", [req "c"], false⟩, ⟨s "b", s "1", [req "c"], false⟩,
+              ⟨s "c", s "1", [req "zz"], false⟩]
     current := [(s "r", s "1"), (s "a", s "1"), (s "b", s "1"), (s "c", s "1")] }
 
 def rTop : Prod := ⟨s "r", some (s "1"), true⟩
@@ -266,8 +266,8 @@ example : (match getDependentProducts diamond diamond.fuel rTop true true with
 /-- D31: `r 1 → b 2, b`; `b 2 → c`; `b 1` current.  Both versions of `b` and `c` end at depth 2 although
 `b 2` depends on `c`, which depends on nothing: the order clause is false without `SingleVersion`. -/
 def d31 : Db :=
-  { decls := [⟨s "c", s "1", []⟩, ⟨s "b", s "1", []⟩, ⟨s "b", s "2", [req "c"]⟩,
-              ⟨s "r", s "1", [req "b" (some "2"), req "b"]⟩]
+  { decls := [⟨s "c", s "1", [], false⟩, ⟨s "b", s "1", [], false⟩, ⟨s "b", s "2", [req "c"], false⟩,
+              ⟨s "r", s "1", [req "b" (some "2"), req "b"], false⟩]
     current := [(s "c", s "1"), (s "b", s "1"), (s "r", s "1")] }
 
 end Examples
@@ -292,14 +292,14 @@ private def opt' (n : String) (v : Option String := none) : Dep := ⟨false, tru
 
 /-- corpus/C13/d18_placeholder_versions.json -/
 def d18 : Db :=
-  { decls := [⟨s' "e", s' "2", []⟩, ⟨s' "c", s' "1", [req' "e"]⟩, ⟨s' "b", s' "1", [req' "c", req' "e" (some "1")]⟩,
-              ⟨s' "a", s' "1", [req' "b", opt' "zz"]⟩]
+  { decls := [⟨s' "e", s' "2", [], false⟩, ⟨s' "c", s' "1", [req' "e"], false⟩,
+              ⟨s' "b", s' "1", [req' "c", req' "e" (some "1")], false⟩, ⟨s' "a", s' "1", [req' "b", opt' "zz"], false⟩]
     current := [(s' "e", s' "2"), (s' "c", s' "1"), (s' "b", s' "1"), (s' "a", s' "1")] }
 
 /-- corpus/C13/d2_uses_two_versions.json -/
 def d2 : Db :=
-  { decls := [⟨s' "e", s' "1", []⟩, ⟨s' "e", s' "2", []⟩, ⟨s' "c", s' "1", [req' "e"]⟩,
-              ⟨s' "a", s' "1", [req' "e" (some "1"), opt' "c"]⟩]
+  { decls := [⟨s' "e", s' "1", [], false⟩, ⟨s' "e", s' "2", [], false⟩, ⟨s' "c", s' "1", [req' "e"], false⟩,
+              ⟨s' "a", s' "1", [req' "e" (some "1"), opt' "c"], false⟩]
     current := [(s' "e", s' "2"), (s' "c", s' "1"), (s' "a", s' "1")] }
 end PinnedExamples
 
